@@ -223,6 +223,101 @@ class WithMerger(ast.NodeTransformer):
         return node
 
 
+class Loopifier(ast.NodeTransformer):
+    """`x = [e for t in it if c]` / `return [e for ...]` / set and dict comprehensions  ->  explicit accumulator loop.
+    Only single-generator comprehensions whose target names are not used elsewhere in the function (the loop form leaks the target)."""
+
+    def __init__(self):
+        self.n = 0
+        self.fn_names = [set()]
+
+    def visit_FunctionDef(self, node):
+        names = {}
+        for x in ast.walk(node):
+            if isinstance(x, ast.Name):
+                names[x.id] = names.get(x.id, 0) + 1
+            elif isinstance(x, ast.arg):
+                names[x.arg] = names.get(x.arg, 0) + 1
+        self.fn_names.append(names)
+        self.generic_visit(node)
+        self.fn_names.pop()
+        for field in ('body',):
+            node.body = self._block(node.body, names)
+        return node
+
+    def _comp_ok(self, comp, names):
+        if not isinstance(comp, (ast.ListComp, ast.SetComp, ast.DictComp)) or len(comp.generators) != 1 or comp.generators[0].is_async:
+            return False
+        tg = [x.id for x in ast.walk(comp.generators[0].target) if isinstance(x, ast.Name)]
+        inner = {}
+        for x in ast.walk(comp):
+            if isinstance(x, ast.Name):
+                inner[x.id] = inner.get(x.id, 0) + 1
+        # target names must not occur outside this comprehension in the function
+        return all(names.get(t, 0) == inner.get(t, 0) for t in tg) and not any(isinstance(x, (ast.ListComp, ast.SetComp, ast.DictComp, ast.GeneratorExp, ast.Lambda)) for x in ast.walk(comp) if x is not comp)
+
+    def _loop(self, comp, acc):
+        g = comp.generators[0]
+        if isinstance(comp, ast.ListComp):
+            init = ast.List(elts=[], ctx=ast.Load())
+            add = ast.Expr(ast.Call(func=ast.Attribute(value=ast.Name(acc, ast.Load()), attr='append', ctx=ast.Load()), args=[comp.elt], keywords=[]))
+        elif isinstance(comp, ast.SetComp):
+            init = ast.Call(func=ast.Name('set', ast.Load()), args=[], keywords=[])
+            add = ast.Expr(ast.Call(func=ast.Attribute(value=ast.Name(acc, ast.Load()), attr='add', ctx=ast.Load()), args=[comp.elt], keywords=[]))
+        else:
+            init = ast.Dict(keys=[], values=[])
+            add = ast.Assign(targets=[ast.Subscript(value=ast.Name(acc, ast.Load()), slice=comp.key, ctx=ast.Store())], value=comp.value)
+        body = [add]
+        for c in reversed(g.ifs):
+            body = [ast.If(test=c, body=body, orelse=[])]
+        return [ast.Assign(targets=[ast.Name(acc, ast.Store())], value=init), ast.For(target=g.target, iter=g.iter, body=body, orelse=[])]
+
+    def _block(self, stmts, names):
+        out = []
+        for st in stmts:
+            for field in ('body', 'orelse', 'finalbody'):
+                v = getattr(st, field, None)
+                if isinstance(v, list) and v and isinstance(v[0], ast.stmt) and not isinstance(st, (ast.FunctionDef, ast.AsyncFunctionDef, ast.ClassDef)):
+                    setattr(st, field, self._block(v, names))
+            for h in getattr(st, 'handlers', []) or []:
+                h.body = self._block(h.body, names)
+            if isinstance(st, ast.Return) and self._comp_ok(st.value, names):
+                self.n += 1
+                acc = f'_acc{self.n}'
+                out += self._loop(st.value, acc) + [ast.Return(value=ast.Name(acc, ast.Load()))]
+            elif isinstance(st, ast.Assign) and len(st.targets) == 1 and isinstance(st.targets[0], ast.Name) and self._comp_ok(st.value, names) \
+                    and not any(isinstance(x, ast.Name) and x.id == st.targets[0].id for x in ast.walk(st.value)):
+                self.n += 1
+                out += self._loop(st.value, st.targets[0].id)
+            else:
+                out.append(st)
+        return out
+
+
+class Walruser(ast.NodeTransformer):
+    """`while True: x = f(); if not x: break; rest`  ->  `while (x := f()): rest`   (and `if x == b'': break` -> `while (x := f()) != b'':`)."""
+
+    def visit_While(self, node):
+        self.generic_visit(node)
+        if not (isinstance(node.test, ast.Constant) and node.test.value is True and len(node.body) >= 3 and not node.orelse):
+            return node
+        a, c = node.body[0], node.body[1]
+        if not (isinstance(a, ast.Assign) and len(a.targets) == 1 and isinstance(a.targets[0], ast.Name) and isinstance(c, ast.If) and not c.orelse
+                and len(c.body) == 1 and isinstance(c.body[0], ast.Break)):
+            return node
+        x = a.targets[0].id
+        ne = ast.NamedExpr(target=ast.Name(x, ast.Store()), value=a.value)
+        t = c.test
+        if isinstance(t, ast.UnaryOp) and isinstance(t.op, ast.Not) and isinstance(t.operand, ast.Name) and t.operand.id == x:
+            test = ne
+        elif isinstance(t, ast.Compare) and len(t.ops) == 1 and isinstance(t.ops[0], ast.Eq) and isinstance(t.left, ast.Name) and t.left.id == x and isinstance(t.comparators[0], ast.Constant):
+            test = ast.Compare(left=ne, ops=[ast.NotEq()], comparators=t.comparators)
+        else:
+            return node
+        # `continue` in the rest would still re-evaluate the test: same behaviour.  A `break`-less else is absent.
+        return ast.While(test=test, body=node.body[2:], orelse=[])
+
+
 def rewrite(d, mode):
     for f in sorted(os.listdir(os.path.join(d, 'disk_objectstore'))):
         if not f.endswith('.py'):
@@ -249,6 +344,12 @@ def rewrite(d, mode):
             ast.fix_missing_locations(tree)
         elif mode == 'withmerge':
             tree = WithMerger().visit(tree)
+            ast.fix_missing_locations(tree)
+        elif mode == 'loopify':
+            tree = Loopifier().visit(tree)
+            ast.fix_missing_locations(tree)
+        elif mode == 'walrus':
+            tree = Walruser().visit(tree)
             ast.fix_missing_locations(tree)
         elif mode == 'flip':
             tree = Flipper().visit(tree)
